@@ -35,7 +35,8 @@ func c05Bundles() []nhBundle {
 	foreign := base
 	foreign.Src, foreign.Rpt = "dtn://far/app", "dtn://far/app"
 	foreign.PaySeed = 3
-	foreign.Ext = []gen.BSpec{{Kind: "hop", N: []uint64{30, 2}}}
+	// a block the node supports, carrying every "if this block cannot be processed" flag: none of them applies
+	foreign.Ext = []gen.BSpec{{Kind: "hop", N: []uint64{30, 2}, Flags: ref.BDelete | ref.BRemove | ref.BReport}}
 	aged := base
 	aged.PaySeed = 4
 	aged.Src, aged.Rpt = "dtn://node/app2", "dtn://node/app2"                          // another endpoint of this node: no ID clash with b0
@@ -68,7 +69,7 @@ func c05Alphabet() []nhEvent {
 		{Op: "up", P: "dest"}, {Op: "up", P: "r1"}, {Op: "up", P: "r2"},
 		{Op: "down", P: "dest"}, {Op: "down", P: "r1"},
 		{Op: "fail", P: "dest"}, {Op: "ok", P: "dest"}, {Op: "fail", P: "r1"}, {Op: "fail", P: "r2"}, {Op: "ok", P: "r2"},
-		{Op: "retry"}, {Op: "clean"}, {Op: "advance", S: 1}, {Op: "advance", S: 1801}, {Op: "advance", S: 3601}, {Op: "restart"},
+		{Op: "retry"}, {Op: "clean"}, {Op: "report", B: 0, S: 3, P: "r1"}, {Op: "advance", S: 1}, {Op: "advance", S: 1801}, {Op: "advance", S: 3601}, {Op: "restart"},
 	}
 }
 
